@@ -918,6 +918,102 @@ pub fn run_c07(tier: Tier) -> i32 {
         s.quit();
     });
     fams.push(json!({"family": "whole games played by the engine against itself on one instance, go limits cycling (zero budgets included)", "games": game_jobs.len(), "gos": stats.gos.load(Ordering::Relaxed) - before_games, "secs": t0.elapsed().as_secs_f64()}));
+    // ---- (2f) roots without a legal move, of every shape: mates and stalemates bucketed by how many
+    // PSEUDO-legal moves the move-less side still has (0, 1, 2, 3+: a boxed king with one attacked
+    // flight, pinned pieces, blocked pawns), under every kind of limit. The answer is the null move.
+    let t0 = Instant::now();
+    let before_term = stats.gos.load(Ordering::Relaxed);
+    let mut buckets: std::collections::BTreeMap<(bool, usize), Vec<Pos>> = std::collections::BTreeMap::new();
+    {
+        let per_bucket = if tier == Tier::Quick { 6 } else { 60 };
+        for sig in ["KQk", "KRk", "KPk", "KPPk", "KRkb", "KQkn", "KBPPk", "KNPPk", "KPPPk", "KRPPk", "KQPkp", "KRPkp", "KBPkp"] {
+            let fam = crate::families::Material::new(sig);
+            let stride = if sig.len() >= 5 { if tier == Tier::Quick { 2_003 } else { 101 } } else if sig.len() == 4 { 7 } else { 1 };
+            let found = std::sync::Mutex::new(Vec::new());
+            crate::families::for_family(&crate::families::Strided(&fam, stride), &|p| {
+                if !p.has_legal_move() {
+                    found.lock().unwrap().push(p.clone());
+                }
+            });
+            let mut f = found.into_inner().unwrap();
+            f.sort_by_key(|p| p.key());
+            for p in f {
+                let k = (p.in_check(p.stm), p.pseudo_legal().len().min(3));
+                let b = buckets.entry(k).or_default();
+                // per signature at most per_bucket/2 so that several signatures contribute
+                if b.len() < per_bucket && b.iter().filter(|q| q.piece_count() == p.piece_count()).count() < (per_bucket / 2).max(2) {
+                    b.push(p);
+                }
+            }
+        }
+    }
+    // boxed corner king: K h8, the seven squares around it each empty / own pawn, bishop, knight /
+    // enemy king, knight, bishop (7^7 placements); this is where 0 and 1 pseudo-legal moves live
+    {
+        let per_bucket = if tier == Tier::Quick { 6 } else { 60 };
+        let sqs: [u8; 7] = [6, 14, 15, 5, 13, 22, 23]; // g8 g7 h7 f8 f7 g6 h6
+        let opts: [u8; 7] = [EMPTY, pc(WHITE, PAWN), pc(WHITE, BISHOP), pc(WHITE, KNIGHT), pc(BLACK, KING), pc(BLACK, KNIGHT), pc(BLACK, BISHOP)];
+        let found = std::sync::Mutex::new(Vec::new());
+        par_for(7u64.pow(7), 4096, |mut i| {
+            let mut p = Pos::empty();
+            p.board[7] = pc(WHITE, KING);
+            let mut kings = 0;
+            for &sq in &sqs {
+                let o = opts[(i % 7) as usize];
+                i /= 7;
+                if o == pc(WHITE, PAWN) && sq < 8 {
+                    return;
+                }
+                if o == pc(BLACK, KING) {
+                    kings += 1;
+                }
+                p.board[sq as usize] = o;
+            }
+            if kings > 1 {
+                return;
+            }
+            if kings == 0 {
+                p.board[56] = pc(BLACK, KING);
+            }
+            p.stm = WHITE;
+            if p.is_legal_position() && !p.has_legal_move() && p.pseudo_legal().len() <= 2 {
+                found.lock().unwrap().push(p);
+            }
+        });
+        let mut f = found.into_inner().unwrap();
+        f.sort_by_key(|p| p.key());
+        let step = (f.len() / 4000).max(1);
+        for p in f.into_iter().step_by(step) {
+            let k = (p.in_check(p.stm), p.pseudo_legal().len().min(3));
+            let b = buckets.entry(k).or_default();
+            if b.len() < 2 * per_bucket {
+                b.push(p);
+            }
+        }
+    }
+    let term_roots: Vec<(Pos, bool, usize)> = buckets.iter().flat_map(|((mate, n), v)| v.iter().flat_map(move |p| [(p.clone(), *mate, *n), (p.flip(), *mate, *n)])).collect();
+    let term_gos = ["go depth 1", "go depth 3", "go movetime 0", "go movetime 200", "go wtime 60000 btime 60000 winc 1000 binc 1000", "go wtime 60000 btime 60000 winc 0 binc 0", "go wtime 1 btime 1", "go infinite", "go ponder depth 2", "go depth 2 searchmoves a1a1", "go nodes 10", "go mate 2"];
+    let term_jobs: Vec<(usize, usize)> = (0..term_roots.len()).flat_map(|i| (0..term_gos.len()).map(move |g| (i, g))).collect();
+    par_map_fine(&term_jobs, |&(i, g)| {
+        let (root, mate, n_pseudo) = &term_roots[i];
+        let pos_line = position_line(root, &[]);
+        let go = term_gos[g];
+        let spec = GoSpec { line: go.to_string(), needs_stop: go == "go infinite", searchmoves: if go.contains("searchmoves") { vec!["a1a1".into()] } else { vec![] } };
+        stats.gos.fetch_add(1, Ordering::Relaxed);
+        let mut s = Session::new(false);
+        s.line(&pos_line);
+        let (plan, st) = plan_for(&spec, 1_000_000, 48_000, 1);
+        let out = run_go(&mut s, &spec.line, plan, &|kk| if kk == st { vec![GateAction::Stop] } else { vec![] });
+        let (late, _) = s.quit();
+        let late_best = late.iter().filter(|e| matches!(e, Ev::Best(..))).count();
+        c07_judge(&rep, root, "terminal_root", &pos_line, &spec, "1ms/node", &out, late_best, json!({"root_is": if *mate { "checkmate" } else { "stalemate" }, "pseudo_legal_moves_of_the_move_less_side": n_pseudo, "single_go_on_fresh_engine": true, "stop_at_poll": 1}));
+    });
+    fams.push(json!({"family": "roots without a legal move, bucketed by mate/stalemate x number of pseudo-legal moves (0,1,2,3+), x 12 go forms", "buckets": buckets.iter().map(|((m, n), v)| json!({"mate": m, "pseudo_legal_moves": n, "positions": v.len()})).collect::<Vec<_>>(), "roots_incl_flips": term_roots.len(), "gos": stats.gos.load(Ordering::Relaxed) - before_term, "secs": t0.elapsed().as_secs_f64()}));
+    for k in [(false, 1usize), (true, 1), (false, 2), (true, 3)] {
+        if buckets.get(&k).map_or(true, |v| v.is_empty()) {
+            rep.machinery(format!("vacuous: no move-less root with mate={} and {} pseudo-legal moves", k.0, k.1));
+        }
+    }
     // ---- (2c) in-search message alphabet: message X first visible at poll k1, stop at poll k2 >= k1;
     // and stray messages while idle before the go (they must be ignored)
     let t0 = Instant::now();
